@@ -395,6 +395,24 @@ def run(ck):
                                     ck.violation("C03.R4", name, gsite, "rows are ordered by np.lexsort(bases.T), whose primary key is the last site, and cut into blocks in the order of np.unique(bases, axis=0), "
                                                  "whose primary key is the first site: with two or more sites the blocks do not hold the rows of their basis")
                                     return False
+                    if g is None and smp_t is not None:
+                        # rows collected in python lists, one list per group (a dictionary of buckets filled in one pass over the
+                        # batch): S[rows, :] with rows = [i for i in <all rows> if <row i belongs to this group>]
+                        at_ = smp_t.single_atom()
+                        if isinstance(at_, T.App) and at_.op == "index" and at_.args[0] == Sx and at_.args[1] and isinstance(at_.args[1][0], tuple) and at_.args[1][0][0] == "advcomp" \
+                                and all(tuple(x) == ("slice", None, None, None) for x in at_.args[1][1:]):
+                            sp_ = at_.args[1][0]
+                            el_ = sp_[1]
+                            own_pos = hasattr(el_, "syms") and len(el_.syms()) == 1 and next(iter(el_.syms())).startswith("i@") and el_ == T.sym(next(iter(el_.syms())))
+                            if own_pos and len(sp_) == 3:
+                                ck.violation("C03.R4", name, gsite, "the rows handed over for this group are [i for i in <every row of the batch>]: the list of rows is not the group's own - every basis group is "
+                                             "evaluated on all rows of the batch (one list object shared by all groups, e.g. dict.fromkeys(keys, []))", key="C03.R4|gradient|groups share one list of rows")
+                                return False
+                            if own_pos and len(sp_) == 4 and sp_[3] == "bykey":
+                                from_key = bas_t is None or any(s_.startswith("arr:key(") or "key(" in s_ for s_ in bas_t.syms())
+                                if from_key:
+                                    ck.ok("C03.R4", name + " (rows bucketed under the group's own key)", gsite)
+                                    return True
                     if g is None or (need_basis and g["Bu"] is None):
                         ck.undecided("C03.R4", name, gsite, "grouping scheme not recognised: samples %s, basis %s" % (str(smp_t)[:120], str(bas_t)[:80]))
                         return False
@@ -421,7 +439,9 @@ def run(ck):
                     bas, sub = argp(a, 1), argp(a, 2)
                     if judge("rotated group: its basis with its own samples", bas, sub):
                         # one call per analysed iteration (first + generic) of the group loop, in whichever function that loop is written
-                        nl = len(loops) if loops else len([l for l in it.loops if l.get("generic") is not None or True][:1])
+                        # (the loop that holds the call; a preparatory pass over the batch - filling buckets - is another loop)
+                        encl = loops_enclosing(it, ".rotated_gradient")
+                        nl = len(encl) if encl else (len(loops) if loops else len([l for l in it.loops if l.get("generic") is not None or True][:1]))
                         ck.check(nl == 1 and len(rc) == 2, "C03.R4", inst + ":one rotated gradient per group", gsite, "rotated_gradient called %d times in the two analysed iterations of %d loops" % (len(rc), nl))
                         for k in range(len(items)):
                             at = items[k].term.single_atom() if items[k].term is not None else None
